@@ -259,7 +259,7 @@ func writeReplay(prop string, ob *sx.Obligation, f *sx.Finding, n int, bi *build
 	}
 	doc := &replayDoc{Property: prop, Obligation: ob.Name, Harness: ob.Func, Pkg: pkg, Label: f.Label, Kind: f.Kind,
 		Msg: f.Msg, Pos: f.Pos, Solver: f.Solver, Values: vals, Internal: internal, Trace: f.Trace,
-		Command: fmt.Sprintf("cd %s && VP_REPLAY=%s go test -v -vet=off -count=1 -run '^TestVPReplay$' -overlay %s %s", repoDir, path, bi.overlayJSON, pkg)}
+		Command: fmt.Sprintf("cd %s && VP_REPLAY=%s go test -v -vet=off -count=1 -run '^TestVPReplay$' -overlay %s %s   (add -race for DATA RACE findings)", repoDir, path, bi.overlayJSON, pkg)}
 	b, _ := json.MarshalIndent(doc, "", " ")
 	os.WriteFile(path, b, 0o644)
 	return path, doc
@@ -268,10 +268,19 @@ func writeReplay(prop string, ob *sx.Obligation, f *sx.Finding, n int, bi *build
 var outcomeRe = regexp.MustCompile(`VP-OUTCOME: (.*)`)
 
 func nativeReplay(path string, doc *replayDoc, bi *buildInfo) string {
-	cmd := exec.Command("go", "test", "-v", "-vet=off", "-count=1", "-run", "^TestVPReplay$", "-overlay", bi.overlayJSON, "-timeout", "120s", doc.Pkg)
+	args := []string{"test", "-v", "-vet=off", "-count=1", "-run", "^TestVPReplay$", "-overlay", bi.overlayJSON, "-timeout", "300s"}
+	race := strings.HasPrefix(doc.Msg, "DATA RACE")
+	if race {
+		// data races are confirmed by the Go race detector on the real build
+		args = append(args, "-race", "-count=3")
+	}
+	cmd := exec.Command("go", append(args, doc.Pkg)...)
 	cmd.Dir = repoDir
 	cmd.Env = append(goEnv(), "VP_REPLAY="+path)
 	out, err := cmd.CombinedOutput()
+	if race && (strings.Contains(string(out), "WARNING: DATA RACE") || strings.Contains(string(out), "race detected during execution")) {
+		return "VP-RACE-DETECTED by go test -race"
+	}
 	if m := outcomeRe.FindSubmatch(out); m != nil {
 		return strings.TrimSpace(string(m[1]))
 	}
@@ -285,6 +294,9 @@ func nativeReplay(path string, doc *replayDoc, bi *buildInfo) string {
 func reproduced(f *sx.Finding, outcome string) bool {
 	switch f.Kind {
 	case "panic":
+		if strings.HasPrefix(f.Msg, "DATA RACE") {
+			return strings.HasPrefix(outcome, "VP-RACE-DETECTED")
+		}
 		return strings.HasPrefix(outcome, "VP-PANIC")
 	default:
 		return strings.HasPrefix(outcome, "VP-ASSERT-FAIL") && strings.Contains(outcome, strconv.Quote(f.Label)) ||
